@@ -59,6 +59,8 @@ class Pipeline(Machine):
             "fault_kinds": s.subset(["crash", "enospc", "eio_read", "short_read", "short_write", "open_fail", "stat_fail"], 0.6),
             "rerun_after_crash": s.chance(0.8),
             "relative_paths": s.chance(0.3),
+            # referenced files reached through symbolic links (a "current.bin -> ../store/app_v2.bin" build tree)
+            "symlinks": s.chance(0.3),
         }
         blobs = [[n, s.choice(SIZES if tier == "thorough" else SIZES[:8])] for n in s.sample(BLOB_NAMES, s.randint(2, 5))]
         feats = [f for f in gen.ALL_FEATURES if s.chance(0.6)]
@@ -168,11 +170,25 @@ class Pipeline(Machine):
         return getattr(self, "_" + k)(host, model, op, faults, prop)
 
     def _setup(self, host, model, op):
+        ls = Stream(host.seed, "links")
+
+        def place(rel, data):
+            """Write a referenced file; in symlink runs most of them are links into another directory."""
+            if host.swarm.get("symlinks") and ls.chance(0.7):
+                store = "store/" + rel.split("/", 1)[1]
+                host.write(store, data)
+                host.mkdir("files")
+                target = host.path(store) if ls.chance(0.3) else os.path.relpath(host.path(store), host.path("files"))
+                os.symlink(target, host.path(rel))
+                model["_extra"]["symlinked_files"] = model["_extra"].get("symlinked_files", 0) + 1
+            else:
+                host.write(rel, data)
+
         for name, size in op["blobs"]:
             data = world.blob(host.seed, name, size)
             model["blobs"][name] = data
             model["blob_rel"][name] = "files/" + name
-            host.write("files/" + name, data)
+            place("files/" + name, data)
         s = Stream(host.seed, "direct")
         for j in range(op["direct"]):
             alg = s.choice(gen.DIGEST_ALGS)
@@ -183,10 +199,10 @@ class Pipeline(Machine):
             elif r == 1:
                 d = d[:-1] + s.choice([b"\x00", b"\n", b" "])  # trailing zero / newline / space
             model["direct_d"][f"dg{j}"] = d
-            host.write(f"files/dg{j}.bin", d)
+            place(f"files/dg{j}.bin", d)
             v = s.choice([0, 23, 24, 65536, 12345678])
             model["direct_s"][f"sz{j}"] = v
-            host.write(f"files/sz{j}.txt", str(v))
+            place(f"files/sz{j}.txt", str(v).encode())
         return []
 
     def _ref_path(self, host, model, rel):
